@@ -287,6 +287,8 @@ def spell_source(source, workdir):
         return source + "/" if os.path.isdir(source) else source
     if how == "uri":
         return pathlib.Path(source).as_uri()
+    if how == "uri1":
+        return "file:" + pathlib.Path(source).as_uri()[len("file://") :]  # the single-slash form of RFC 8089
     if how == "dotdot":
         return os.path.join(os.path.dirname(source), "..", os.path.basename(os.path.dirname(source)), os.path.basename(source))
     return source
@@ -370,6 +372,8 @@ def generate(source, recursive, params, route, cache, workdir):
             if cache:
                 argv.append("--cache")
             cfgfile = os.path.join(workdir, "cfg-cli.xml")
+            if ENV.get("config_in_source") and os.path.isdir(source) and source.startswith(SPEC["workdir"]):
+                cfgfile = os.path.join(source, ".xsdata.xml")  # where `xsdata init-config` puts it when run in the source directory
             if route == "cli_flags" and params.get("create"):
                 # `xsdata init-config` writes the stock configuration, the options travel as flags
                 out, err = sys.stdout, sys.stderr
